@@ -211,6 +211,22 @@ func TestVerifC03(t *testing.T) {
 				}
 			}
 		}
+		// directed: the first rule of an HTTPRoute rewrites (or redirects) by prefix and its one match is such a path
+		if r.Chance(1, 6) {
+			for ri := range c.Routes {
+				if c.Routes[ri].GRPC || len(c.Routes[ri].Rules) == 0 {
+					continue
+				}
+				ru := &c.Routes[ri].Rules[0]
+				kind := []string{"rewrite", "redirect"}[r.Intn(2)]
+				ru.Filters = []vsFilter{{Kind: kind, Path: &vsPathMod{Full: false, Val: []string{"/new", "/", "/new/"}[r.Intn(3)]}}}
+				if kind == "redirect" {
+					ru.Backends = nil
+				}
+				ru.Matches = []vsMatch{{Path: []string{"/a(b", "/a)b", "/x*y", "/p+q", "/d.e", "/q$r", "/a(b)/c", "/[z", "/a|b", "/c{2}"}[r.Intn(10)]}}
+				break
+			}
+		}
 		var extra []client.Object
 		var tags []string
 		withParams := false
